@@ -11,6 +11,8 @@ Grammar-conformance analysis on the model extracted from the parser source:
 """
 from __future__ import annotations
 
+import ast
+
 from .. import e1
 from .. import grammar as GR
 from .. import lexmodel as LM
@@ -336,6 +338,8 @@ def _potential_actual(g, pa, x, nullable, first):
             else:
                 ck = ev[1]
                 f = first.get(ck, set())
+                if ck[0] in _generic_consumers():
+                    f = f & set(ev[2])      # a helper that takes "the current token, whatever it is": its FIRST is only what its callers let through, so it says nothing about this guard
                 pot |= f
                 a = f & set(ev[2])
                 act |= (a if r2 is None else a & r2)
@@ -345,6 +349,29 @@ def _potential_actual(g, pa, x, nullable, first):
                         seen_r.add(key)
                         stack.append((d, r2))
     return pot, act
+
+
+_gc = {}
+
+
+def _generic_consumers():
+    """productions whose first token operation is an untyped self._advance() and that never look at the type of that token"""
+    if "v" not in _gc:
+        px = S.module("c_parser")
+        out = set()
+        for name, fn in px.methods("CParser").items():
+            ops = sorted((c for c in ast.walk(fn) if isinstance(c, ast.Call) and isinstance(c.func, ast.Attribute) and isinstance(c.func.value, ast.Name) and c.func.value.id == "self"
+                          and c.func.attr in ("_advance", "_expect", "_accept", "_peek", "_peek_type", "_starts_declaration", "_starts_expression", "_starts_statement", "_starts_declarator", "_mark")
+                          or (isinstance(c, ast.Call) and isinstance(c.func, ast.Attribute) and c.func.attr.startswith(("_parse_", "_try_parse_")))), key=lambda c: (c.lineno, c.col_offset))
+            if not ops or not (isinstance(ops[0].func, ast.Attribute) and ops[0].func.attr == "_advance" and not ops[0].args):
+                continue
+            par = getattr(ops[0], "_parent", None)
+            var = par.targets[0].id if isinstance(par, ast.Assign) and len(par.targets) == 1 and isinstance(par.targets[0], ast.Name) else None
+            looks = any(isinstance(a, ast.Attribute) and a.attr == "type" and isinstance(a.value, ast.Name) and a.value.id == var for a in ast.walk(fn)) if var else False
+            if not looks:
+                out.add(name)
+        _gc["v"] = out
+    return _gc["v"]
 
 
 def _who_could(g, pa, x, tok, nullable, first):
